@@ -406,5 +406,12 @@ pub fn run(cx: &mut Cx) -> String {
             judge_and_shrink(case, st, &|c, st| judge_case(c, tracing, st))
         });
     }
+    // focus: the same generic helpers instantiated at plain lists and at associative lists
+    // (`List<Pair<k, v>>` is a map at the Data level) within one program (shared with C06)
+    let cfg4 = AikCfg { pairs_bias: true, cast_weight: 8, abort_weight: 1, trace_weight: 0, expect_weight: 1, closure_weight: 0, max_adts: 1, max_helpers: 2, ..AikCfg::default() };
+    cx.prop("pairs-and-lists", tier.of(14_000, 300_000), 3000, |src, st| {
+        let case = gen_case(src, &cfg4, 8);
+        judge_and_shrink(case, st, &|c, st| judge_case(c, Tracing::All(TraceLevel::Silent), st))
+    });
     RULE.to_string()
 }
